@@ -1,0 +1,32 @@
+//go:build verif
+
+package database
+
+import (
+	"context"
+	"sync/atomic"
+)
+
+// VerifPointFunc is consulted at every verification point. It may return an
+// error (injected fault) or never return (e.g. kill the process).
+type VerifPointFunc func(ctx context.Context, name string, index int) error
+
+var verifPointFunc atomic.Pointer[VerifPointFunc]
+
+// SetVerifPointFunc installs (or, with nil, removes) the process-global hook.
+func SetVerifPointFunc(fn VerifPointFunc) {
+	if fn == nil {
+		verifPointFunc.Store(nil)
+		return
+	}
+	verifPointFunc.Store(&fn)
+}
+
+// VerifPoint marks a boundary inside transaction finalization (and inside the
+// filesystem part store's publication hooks) for the verification harness.
+func VerifPoint(ctx context.Context, name string, index int) error {
+	if fn := verifPointFunc.Load(); fn != nil {
+		return (*fn)(ctx, name, index)
+	}
+	return nil
+}
